@@ -714,11 +714,12 @@ theorem modify_same_dinv {F : Facts} {v2 : Bool} {u : U} {o : Nat} {f : Obj → 
 
 /-! ## `walkType` -/
 
-/-- the facts are those of go/types: the underlying node of a defined type is an unnamed type node -/
+/-- the facts are those of go/types: the underlying node of a defined type is a basic/named/map/slice node (alias rule) or
+an unnamed type node, and so is the underlying node of the generic origin where v2 walks that instead -/
 structure WellFormed (F : Facts) (v2 : Bool) : Prop where
   under : ∀ g und ms tps ou, F.node g = .named und ms tps ou →
     (isAliasUnder (F.node und) = true ∨ ∃ K kids, shape v2 (F.node und) = some (K, kids)) ∧
-    (∃ K kids, shape v2 (F.node ou) = some (K, kids))
+    (isAliasUnder (F.node und) = false → (v2 && isStructOrIface (F.node und)) = true → ∃ K kids, shape v2 (F.node ou) = some (K, kids))
 
 theorem frozen_of_except {u1 u2 u3 : U} {x : Nat} (h1 : Frozen u1 u2) (h2 : FrozenExcept x u2 u3)
     (hx : ∀ ob : Obj, u1.objs[x]? = some ob → ob.kind = .unknown) : Frozen u1 u3 := by
@@ -879,7 +880,7 @@ theorem walk_desc (bt : List Builtin) (F : Facts) (v2 : Bool) (hng : NoGenerics 
             | some p =>
               obtain ⟨u3, o3⟩ := p
               simp only [hw2] at hw
-              obtain ⟨d3, f3, i3, k3, e3⟩ := flatten ou u3 o3 horig hunk hw2
+              obtain ⟨d3, f3, i3, k3, e3⟩ := flatten ou u3 o3 (horig (by simpa using ha) hs) hunk hw2
               obtain ⟨i4, g4⟩ := modify_inv (o := o3) (f := fun ob => { ob with tparams := [] })
                 (fun ob _ => ⟨rfl, fun _ => rfl, fun r hr => .inl (by
                   simp only [refs, List.map_nil, List.append_nil, List.mem_append] at hr ⊢
